@@ -129,7 +129,7 @@ package scan
 //   otherwise           -> exactly one packet carrying the buffer that was filled for this request
 // (send? = the guarded send: sent, or the scan was cancelled)
 //@ func (*packetGenerator).Packets$1
-//@   props C07 C13 C12 C01
+//@   props C07 C13 C12 C01 C19 C05
 //@   observe NewSerializeBuffer, Fill
 //@   loop 0 row cancel:  [ctxdone ; close out] -> exit
 //@   loop 0 row closed:  [recv in as (r, false) ; close out] -> exit
@@ -141,12 +141,12 @@ package scan
 //@                            when r.Err == nil && ferr == nil && x.Buf == buf && x.Err == nil -> continue
 //@   loop 0 row fill_c:    [recv in as (r, true) ; call NewSerializeBuffer() as (buf) ; call Fill(g.filler, buf, r) as (ferr) ; ctxdone] when r.Err == nil -> continue
 //@ func (*packetGenerator).Packets
-//@   props C07 C16 C01
+//@   props C07 C16 C01 C19
 //@   entry row start: [go (*packetGenerator).Packets$1] -> exit
 
 // multi-generator: exactly numWorkers generator instances, all reading the same request channel, merged
 //@ func (*packetMultiGenerator).Packets
-//@   props C07 C16 C01
+//@   props C07 C16 C01 C19 C13
 //@   observe Packets, MergeBufferDataChan
 //@   requires g.numWorkers >= 0
 //@   loop 0 invariant bounds: 0 <= i && i <= g.numWorkers && len(workers) == g.numWorkers
@@ -156,18 +156,18 @@ package scan
 // merger: every element received from a worker is forwarded once; the output is closed only after all
 // multiplexers have returned
 //@ func MergeBufferDataChan$1
-//@   props C07 C12 C01
+//@   props C07 C12 C01 C19 C13
 //@   observe (*sync.WaitGroup).Done
 //@   loop 0 row cancel:  [ctxdone ; call Done(_)] -> exit
 //@   loop 0 row closed:  [recv c as (e, false) ; call Done(_)] -> exit
 //@   loop 0 row forward: [recv c as (e, true) ; send out e] -> continue
 //@   loop 0 row fwd_c:   [recv c as (e, true) ; ctxdone ; call Done(_)] -> exit
 //@ func MergeBufferDataChan$2
-//@   props C07 C12 C16 C01
+//@   props C07 C12 C16 C01 C19 C13
 //@   observe (*sync.WaitGroup).Wait
 //@   entry row closer: [call Wait(_) ; close out] -> exit
 //@ func MergeBufferDataChan
-//@   props C07 C12 C16 C01
+//@   props C07 C12 C16 C01 C19 C13
 //@   observe (*sync.WaitGroup).Add
 //@   entry row setup: [call Add(_, len(channels))] -> loop 0
 //@   loop 0 row spawn:  [go MergeBufferDataChan$1] -> continue
@@ -175,31 +175,31 @@ package scan
 
 // packet source: a generator that fails to start yields exactly one error packet on a closed channel
 //@ func (*packetSource).Packets
-//@   props C07 C13 C16 C12 C01
+//@   props C07 C13 C16 C12 C01 C19
 //@   observe GenerateRequests, Packets
 //@   entry row generr: [call GenerateRequests(s.reqgen, ctx, r) as (reqs, gerr) ; send bind_c bind_x ; close bind_c2] when gerr != nil && c == c2 && ret == c && x.Err == gerr && x.Buf == nil -> exit
 //@   entry row ok:     [call GenerateRequests(s.reqgen, ctx, r) as (reqs, gerr) ; call Packets(s.pktgen, ctx, reqs) as (pk)] when gerr == nil && ret == pk -> exit
 
 // packet engine: the source feeds the sender, completion = the sender's done, both error streams are merged
 //@ func (*PacketEngine).Start
-//@   props C07 C16 C12 C01 C20
+//@   props C07 C16 C12 C01 C20 C19 C13 C03
 //@   observe Packets, SendPackets, ReceivePackets, mergeErrChan
 //@   entry row wiring: [call Packets(e.src, ctx, r) as (pk) ; call SendPackets(e.snd, ctx, pk) as (done, errc1) ; call ReceivePackets(e.rcv, ctx) as (errc2) ; call mergeErrChan(ctx, bind_cs) as (m)]
 //@                       when ret0 == done && ret1 == m && len(cs) == 2 && cs[0] == errc1 && cs[1] == errc2 -> exit
 
 // error merger (same shape as the packet merger; the send is guarded)
 //@ func mergeErrChan$1
-//@   props C07 C08 C12 C20 C16
+//@   props C07 C08 C12 C20 C16 C13
 //@   observe (*sync.WaitGroup).Done
 //@   loop 0 row cancel:  [ctxdone ; call Done(_)] -> exit
 //@   loop 0 row closed:  [recv c as (e, false) ; call Done(_)] -> exit
 //@   loop 0 row forward: [recv c as (e, true) ; send? out e] -> continue
 //@ func mergeErrChan$2
-//@   props C07 C08 C12 C20 C16
+//@   props C07 C08 C12 C20 C16 C13
 //@   observe (*sync.WaitGroup).Wait
 //@   entry row closer: [call Wait(_) ; close out] -> exit
 //@ func mergeErrChan
-//@   props C07 C08 C12 C20 C16
+//@   props C07 C08 C12 C20 C16 C13
 //@   observe (*sync.WaitGroup).Add
 //@   entry row setup: [call Add(_, len(channels))] -> loop 0
 //@   loop 0 row spawn:  [go mergeErrChan$1] -> continue
@@ -210,7 +210,7 @@ package scan
 // worker: per received request: failed request -> one error, no probe; otherwise exactly one probe, then
 // one error, or one result, or nothing
 //@ func (*GenericEngine).worker
-//@   props C08 C13 C12 C10 C09
+//@   props C08 C13 C12 C10 C09 C01
 //@   observe Scan, Put, (*sync.WaitGroup).Done
 //@   loop 0 row cancel:  [ctxdone ; call Done(_)] -> exit
 //@   loop 0 row closed:  [recv requests as (r, false) ; call Done(_)] -> exit
@@ -221,13 +221,13 @@ package scan
 
 // Start: generator failure -> one error, both channels closed; otherwise the coordinator goroutine
 //@ func (*GenericEngine).Start
-//@   props C08 C12 C16
+//@   props C08 C12 C16 C01 C13
 //@   observe GenerateRequests
 //@   entry row generr: [call GenerateRequests(e.reqgen, ctx, r) as (reqs, gerr) ; send bind_ec gerr ; close bind_ec2 ; close bind_dc] when gerr != nil && ec == ec2 && ret0 == dc && ret1 == ec -> exit
 //@   entry row start:  [call GenerateRequests(e.reqgen, ctx, r) as (reqs, gerr) ; go (*GenericEngine).Start$1] when gerr == nil -> exit
 // coordinator: workerCount workers on the same request channel; completion only after all of them returned
 //@ func (*GenericEngine).Start$1
-//@   props C08 C12 C16
+//@   props C08 C12 C16 C01 C13
 //@   observe (*sync.WaitGroup).Add, (*sync.WaitGroup).Wait
 //@   loop 0 invariant bounds: 1 <= i && (e.workerCount >= 0 ==> i <= e.workerCount + 1) && (e.workerCount < 0 ==> i == 1)
 //@   loop 0 row spawn: [call Add(_, 1) ; go (*GenericEngine).worker(e, ctx, _, requests, errc)] -> continue
@@ -245,7 +245,7 @@ package scan
 
 // C15: every probe is charged exactly once, before it starts
 //@ func (*rateLimitScanner).Scan
-//@   props C15
+//@   props C15 C01 C08
 //@   observe Take, Scan
 //@   entry row charged: [call Take(s.limiter) ; call Scan(s.Scanner, ctx, r) as (res, e)] when ret0 == res && ret1 == e -> exit
 
@@ -255,7 +255,7 @@ package scan
 // cancellation or starts exactly one new pass. The only exit is cancellation; a pass that fails to start
 // leaves the loop alive (the next read blocks until cancellation).
 //@ func (*liveRequestGenerator).GenerateRequests$1
-//@   props C19 C12
+//@   props C19 C12 C01
 //@   observe time.After, GenerateRequests
 //@   loop 0 row forward:   [recv pre(requests) as (rq, true) ; send? out rq] -> continue
 //@   loop 0 row pass_end:  [recv pre(requests) as (rq, false) ; call time.After(rg.rescanTimeout) as (t) ; recv t as (_, _) ; call GenerateRequests(rg.delegate, ctx, r) as (nr, e)]
@@ -265,7 +265,7 @@ package scan
 //@   loop 0 row cancel_t:  [ctxdone ; call time.After(rg.rescanTimeout) as (t) ; recv t as (_, _) ; call GenerateRequests(rg.delegate, ctx, r) as (nr, e)]
 //@                            when requests == nr -> continue
 //@ func (*liveRequestGenerator).GenerateRequests
-//@   props C19
+//@   props C19 C01
 //@   observe GenerateRequests
 //@   entry row fail:  [call GenerateRequests(rg.delegate, ctx, r) as (rq, e)] when e != nil && ret0 == nil && ret1 == e -> exit
 //@   entry row start: [call GenerateRequests(rg.delegate, ctx, r) as (rq, e) ; go (*liveRequestGenerator).GenerateRequests$1{out: bind_o, ctx: bind_c, requests: bind_rq2, rg: bind_g2, r: bind_r2}]
@@ -434,17 +434,17 @@ package scan
 // C08: engine construction. The engine keeps exactly the generator, scanner and result channel it was given;
 // default 100 workers; the worker option sets exactly the worker count; options are applied in order, then nothing.
 //@ func WithScanWorkerCount$1
-//@   props C08
+//@   props C08 C01
 //@   modifies s.workerCount
 //@   ensures s.workerCount == workerCount
 //@ func NewScanEngine
-//@   props C08
+//@   props C08 C01
 //@   observe o
 //@   entry row init:  [] when s.reqgen == reqgen && s.scanner == scanner && s.results == results && s.workerCount == 100 -> loop 0
 //@   loop 0 row apply: [call o(s)] -> continue
 //@   loop 0 row done:  [] when ret == s -> exit
 //@ func NewRateLimitScanner
-//@   props C15
+//@   props C15 C01
 //@   ensures isptr(ret, rateLimitScanner) && asptr(ret, rateLimitScanner).Scanner == delegate && asptr(ret, rateLimitScanner).limiter == limiter
 
 // ---------------------------------------------------------------------------------------------
@@ -452,13 +452,13 @@ package scan
 // was given; the outer function of a stage fails with the delegate's error and otherwise spawns its worker once on
 // the channel it returns.
 //@ func NewPacketSource
-//@   props C07 C01
+//@   props C07 C01 C19
 //@   ensures isptr(ret, packetSource) && asptr(ret, packetSource).reqgen == reqgen && asptr(ret, packetSource).pktgen == pktgen
 //@ func NewPacketGenerator
-//@   props C07
+//@   props C07 C01
 //@   ensures isptr(ret, packetGenerator) && asptr(ret, packetGenerator).filler == filler
 //@ func NewPacketMultiGenerator
-//@   props C07 C01
+//@   props C07 C01 C19
 //@   ensures isptr(ret, packetMultiGenerator) && asptr(ret, packetMultiGenerator).numWorkers == numWorkers && asptr(ret, packetMultiGenerator).gen != nil && asptr(ret, packetMultiGenerator).gen.filler == filler
 //@ func NewPacketEngine
 //@   props C07 C20
@@ -485,7 +485,7 @@ package scan
 //@   props C01 C13
 //@   ensures isptr(ret, fileIPGenerator) && asptr(ret, fileIPGenerator).openFile == openFile
 //@ func NewLiveRequestGenerator
-//@   props C19
+//@   props C19 C01
 //@   ensures isptr(ret, liveRequestGenerator) && asptr(ret, liveRequestGenerator).delegate == rg && asptr(ret, liveRequestGenerator).rescanTimeout == rescanTimeout
 //@ func NewFilterIPRequestGenerator
 //@   props C02 C13
